@@ -185,28 +185,52 @@ Fixpoint scan_value (s : str) : option str :=
       else scan_value s'
   end.
 
-Definition try_remap (note target : str) : option str :=
-  match find_sub gn_remap_field note with
+(* "---\n" and "\n---\n" *)
+Definition div_head : str := [45; 45; 45; 10].
+Definition div_mid : str := [10; 45; 45; 45; 10].
+
+(* where the metadata section starts: right after the first divider line.  after_divider is
+   GenNotes.gn_remap_after_divider; false = the code before that repair searched the whole note *)
+Definition metadata_start (after_divider : bool) (note : str) : option nat :=
+  if after_divider then
+    if starts_with div_head note then Some (length div_head)
+    else match find_sub div_mid note with
+         | Some i => Some (i + length div_mid)%nat
+         | None => None
+         end
+  else Some O.
+
+(* the scan from the byte index i of the field literal *)
+Definition remap_at (i : nat) (note target : str) : option str :=
+  let r1 := skip_ws (skipn (i + length gn_remap_field) note) in
+  match r1 with
+  | c :: r2 =>
+      if c =? 58 then
+        match skip_ws r2 with
+        | q :: r4 =>
+            if q =? c_dq then
+              match scan_value r4 with
+              | Some rest => Some (firstn (length note - length r4) note ++ target ++ rest)
+              | None => None
+              end
+            else None
+        | [] => None
+        end
+      else None
+  | [] => None
+  end.
+
+Definition try_remap_with (after_divider : bool) (note target : str) : option str :=
+  match metadata_start after_divider note with
   | None => None
-  | Some i =>
-      let r1 := skip_ws (skipn (i + length gn_remap_field) note) in
-      match r1 with
-      | c :: r2 =>
-          if c =? 58 then
-            match skip_ws r2 with
-            | q :: r4 =>
-                if q =? c_dq then
-                  match scan_value r4 with
-                  | Some rest => Some (firstn (length note - length r4) note ++ target ++ rest)
-                  | None => None
-                  end
-                else None
-            | [] => None
-            end
-          else None
-      | [] => None
+  | Some m =>
+      match find_sub gn_remap_field (skipn m note) with
+      | None => None
+      | Some j => remap_at (m + j) note target
       end
   end.
+
+Definition try_remap := try_remap_with gn_remap_after_divider.
 
 (* ---------- parse_batch_check_blob_oid (code points) ---------- *)
 Fixpoint split_ws_aux (cur : str) (s : str) : list str :=
@@ -293,7 +317,8 @@ Definition w_sq_mf (p : str) (lc : N) : list lattr := if str_eqb p [120] then [(
 Definition w_sq_source : va := [([97], [(4, 4, w_s)]); ([120], [(3, 4, w_s)])].
 
 (* ---------- witnesses ---------- *)
-(* a note whose attestation section names the file  DQ base_commit_sha DQ : DQ x  (DQ = the double quote; a legal file name) *)
+(* a note whose attestation section names the file  DQ base_commit_sha DQ : DQ x  (DQ = the double quote; a legal file name);
+   the metadata is on one line *)
 Definition w_remap_note : str :=
   [34;98;97;115;101;95;99;111;109;109;105;116;95;115;104;97;34;58;34;120;10;    (* the path line *)
    32;32;104;32;49;10;45;45;45;10;123;                                          (* entry line, divider, open brace *)
